@@ -118,8 +118,14 @@ def run(ctx, info):
     jobs = []
     for nm in search.all_names():
         for _ in range((1 if ctx.quick else 3) * ctx.boost):
-            jobs.append({"opt": nm, "cfg": {"max_cycles": r.choice([3, 5]), "fitness_error": None}, "snapshots": True, "trends": True,
+            jobs.append({"opt": nm, "cfg": {"max_cycles": r.choice([3, 5, 12]), "fitness_error": None}, "snapshots": True, "trends": True,
                          "task": search.cont_task(obj=r.choice(["sphere", "step", "linear"]), minmax=r.choice(["min", "max"]), seed=r.randint(0, 10**6))})
+    # optimizers for which T-algo now reports stores to position / cost / fitness of existing agents: many longer runs (the store may need a rare event)
+    sks_ = st.get("_skeletons", {})
+    for nm in [n for n, sk in sks_.items() if sk.get("core_writes") and n != "ImperialistCompetitiveOptimization"]:
+        for _ in range(12):
+            jobs.append({"opt": nm, "cfg": {"max_cycles": r.choice([10, 20, 30]), "fitness_error": None}, "snapshots": True, "trends": True,
+                         "task": search.cont_task(obj=r.choice(["sphere", "rastrigin"]), minmax="min", seed=r.randint(0, 10**6))})
     # the same fidelity on a REUSED instance (a second / third run must record its own history only)
     for nm in (r.sample(search.all_names(), 16) if ctx.quick else search.all_names()):
         first = {"task": search.cont_task(obj="sphere", minmax=r.choice(["min", "max"]), seed=r.randint(0, 10**6))}
